@@ -39,12 +39,12 @@ func d1Pairs(sc *Script, m *model) (out [][2]int) {
 	for d := range sc.Dests {
 		for o := 0; o < sc.N; o++ {
 			f := m.Fates[o]
-			if !f.FiltInRun[d] || f.NackedReq[d] == 0 {
+			if !f.FiltInRun[d] || f.NackedAll[d] == 0 {
 				continue
 			}
 			later := false
 			for o2 := o + 1; o2 < sc.N; o2++ {
-				if m.Fates[o2].NackedReq[d] > 0 {
+				if m.Fates[o2].NackedAll[d] > 0 {
 					later = true
 				}
 			}
